@@ -1,5 +1,7 @@
 import LolHtml.Lemmas.StreamLocations
 import LolHtml.Lemmas.LocationsOk
+import LolHtml.Lemmas.StreamLocationsAll
+import LolHtml.Thm.C15_Core
 import LolHtml.Lemmas.SpecAttrsWf
 import LolHtml.Model.AttrsApi
 import LolHtml.Thm.C01
@@ -174,6 +176,75 @@ theorem C14_ranges_prefix (w : World γ) (log : γ → List Token) (hlog : Loggi
     Ordered (log (writeAll w (Rewriter.new w g cfg) chunks).1.stream.disp.ctl) :=
   (writeAll_RInv_ok hlog hnr ht chunks _ (new_RInv w log g cfg hg)).1
 
+/-! ### … for EVERY controller (element content removal included), with package `inv`'s register invariants -/
+
+/-- invariant of the public object, with `inv`'s stream invariant -/
+def RInv2 (w : World γ) (log : γ → List Token) (r : Rewriter γ) : Prop :=
+  Ordered (log r.stream.disp.ctl) ∧ (r.poisoned = false → r.stream.LocInv2 w log)
+
+theorem new_RInv2 (w : World γ) (hw : Wf w.tbl) (log : γ → List Token) (g : γ) (cfg : Settings) (hg : log g = []) :
+    RInv2 w log (Rewriter.new w g cfg) := by
+  have ho : Ordered (log g) := by rw [hg]; exact ⟨by simp, List.Pairwise.nil⟩
+  refine ⟨ho, fun _ => ⟨Stream.new_SInv hw g cfg, ho, ?_, ?_⟩⟩
+  · intro a ha
+    simp only [Rewriter.new, Stream.new, Stream.disp, Parser.new, Disp.new] at ha
+    rw [hg] at ha; simp at ha
+  · intro hp
+    simp [Rewriter.new, Stream.new, Stream.disp, Parser.new, Disp.new] at hp
+
+theorem write_RInv2 {w : World γ} {log : γ → List Token} (hlog : Logging w.ctl log) (hc : CtlClean w.ctl)
+    (hw : Wf w.tbl) (ht : EmitsChecked w.tbl = true) (r : Rewriter γ) (data : Bytes) (h : RInv2 w log r) :
+    RInv2 w log (r.write w data).1 := by
+  unfold Model.Rewriter.write
+  split
+  · exact h
+  · rename_i hp
+    have hp' : r.poisoned = false := by simpa using hp
+    obtain ⟨ho, hok⟩ := Stream.write_LocInv2 hlog hc hw ht r.stream data (h.2 hp')
+    dsimp only
+    split
+    · rename_i hres
+      exact ⟨ho, fun _ => hok hres⟩
+    · exact ⟨ho, fun hcc => by simp at hcc⟩
+
+theorem writeAll_RInv2 {w : World γ} {log : γ → List Token} (hlog : Logging w.ctl log) (hc : CtlClean w.ctl)
+    (hw : Wf w.tbl) (ht : EmitsChecked w.tbl = true) (chunks : List Bytes) (r : Rewriter γ) (h : RInv2 w log r) :
+    RInv2 w log (writeAll w r chunks).1 := by
+  induction chunks generalizing r with
+  | nil => exact h
+  | cons c cs ih => exact ih _ (write_RInv2 hlog hc hw ht r c h)
+
+/-- **C14_ranges_all_controllers.** For every table satisfying the decidable side-conditions `WfTable` (package `inv`)
+and `EmitsChecked`, every tag configuration, settings record, history `write* ; end` (any chunking, failing calls
+included) and EVERY controller — handlers may rewrite tokens, remove element content (switch emission off and on
+again) and fail at any point; the only assumption, `CtlClean`, is that an error returned by a handler is a handler-class
+error and not one of the model's markers for a Rust panic —: the source ranges of the tokens handed to the controller,
+in the order they were handed over, are well-formed, ordered and pairwise disjoint, within a `write` and across
+`write`s. (`Disp.resumeEmission` re-positions `remaining_content_start` at the end tag of a removed element without a
+bounds check; it never moves backwards because `remaining_content_start ≤ lexeme_start`, `inv`'s register invariant.) -/
+theorem C14_ranges_all_controllers (w : World γ) (log : γ → List Token) (hlog : Logging w.ctl log) (hc : CtlClean w.ctl)
+    (hwf : WfTable w.tbl = true) (ht : EmitsChecked w.tbl = true) (g : γ) (hg : log g = []) (cfg : Settings)
+    (chunks : List Bytes) :
+    Ordered (log (run w (Rewriter.new w g cfg) chunks).1.stream.disp.ctl) := by
+  have hw := WfTable.wf hwf
+  unfold run
+  have h := writeAll_RInv2 hlog hc hw ht chunks _ (new_RInv2 w hw log g cfg hg)
+  dsimp only
+  unfold Model.Rewriter.end
+  split
+  · exact h.1
+  · rename_i hp
+    have hp' : (writeAll w (Rewriter.new w g cfg) chunks).1.poisoned = false := by simpa using hp
+    have := Stream.end_ordered2 hlog hc hw ht _ (h.2 hp')
+    dsimp only
+    split <;> exact this
+
+theorem C14_ranges_all_controllers_prefix (w : World γ) (log : γ → List Token) (hlog : Logging w.ctl log)
+    (hc : CtlClean w.ctl) (hwf : WfTable w.tbl = true) (ht : EmitsChecked w.tbl = true) (g : γ) (hg : log g = [])
+    (cfg : Settings) (chunks : List Bytes) :
+    Ordered (log (writeAll w (Rewriter.new w g cfg) chunks).1.stream.disp.ctl) :=
+  (writeAll_RInv2 hlog hc (WfTable.wf hwf) ht chunks _ (new_RInv2 w (WfTable.wf hwf) log g cfg hg)).1
+
 /-- what `Ordered` says, spelled out: any two tokens, the earlier one ends before the later one starts -/
 theorem Ordered.disjoint {l : List Token} (h : Ordered l) (i j : Nat) (hij : i < j) (hj : j < l.length) :
     l[i].src.start ≤ l[i].src.end ∧ l[i].src.end ≤ l[j].src.start ∧ l[j].src.start ≤ l[j].src.end := by
@@ -285,6 +356,50 @@ example : ((run ⟨Gen.Syntax.table, Gen.Tags.cfg, withLog failOnComment⟩
       (Rewriter.new ⟨Gen.Syntax.table, Gen.Tags.cfg, withLog failOnComment⟩ ((), []) {}) sampleChunks).1.stream.disp.ctl.2.map
         fun t => (t.src.start, t.src.end))
     = [(0, 9), (9, 10), (10, 10), (10, 18)] := by decide +kernel
+
+/-- a controller that removes the content of every element (emission off from each start tag to the matching …
+next end tag), captures everything and fails on nothing -/
+def removeAll : Controller Bool :=
+  { initialFlags := fun _ => Flags.ofNat 31
+    startTag := fun _ _ _ => (false, .flags (Flags.ofNat 31))
+    auxInfo := fun g _ => (g, .ok (Flags.ofNat 31))
+    endTag := fun _ _ => (true, Flags.ofNat 31)
+    token := fun g t => (g, { chunks := [t.raw] })
+    shouldEmit := fun g => g
+    handleEnd := fun g => (g, [], none)
+    bailOut := fun g _ => (g, []) }
+
+theorem withLog_clean (ctl : Controller γ) (h : CtlClean ctl) : CtlClean (withLog ctl) where
+  token := fun g t e he => h.token g.1 t e he
+  startTag := fun g n ns e he => h.startTag g.1 n ns e he
+  auxInfo := fun g i e he => h.auxInfo g.1 i e he
+  handleEnd := fun g e he => h.handleEnd g.1 e he
+
+theorem removeAll_clean : CtlClean removeAll where
+  token := by intro g t e he; simp [removeAll] at he
+  startTag := by intro g n ns e he; simp [removeAll] at he
+  auxInfo := by intro g i e he; simp [removeAll] at he
+  handleEnd := by intro g e he; simp [removeAll] at he
+
+/-- C14_ranges_all_controllers on the generated table for the content-removing controller -/
+theorem C14_ranges_all_controllers_gen (cfg : Settings) (chunks : List Bytes) :
+    Ordered (run ⟨Gen.Syntax.table, Gen.Tags.cfg, withLog removeAll⟩
+      (Rewriter.new ⟨Gen.Syntax.table, Gen.Tags.cfg, withLog removeAll⟩ (true, []) cfg) chunks).1.stream.disp.ctl.2 :=
+  C14_ranges_all_controllers ⟨Gen.Syntax.table, Gen.Tags.cfg, withLog removeAll⟩ (·.2) (withLog_logging _)
+    (withLog_clean _ removeAll_clean) LolHtml.Thm.C15.C15_gen emitsChecked_gen (true, []) rfl cfg chunks
+
+/-- non-vacuity: emission really is switched off and on (the sink receives only `<div a=b>` … `</div>`), all
+calls succeed, and the five tokens are handed over with the same ranges as before -/
+example : (run ⟨Gen.Syntax.table, Gen.Tags.cfg, withLog removeAll⟩
+      (Rewriter.new ⟨Gen.Syntax.table, Gen.Tags.cfg, withLog removeAll⟩ (true, []) {}) sampleChunks).2
+    = [.ok, .ok, .ok, .ok] := by decide +kernel
+example : ((run ⟨Gen.Syntax.table, Gen.Tags.cfg, withLog removeAll⟩
+      (Rewriter.new ⟨Gen.Syntax.table, Gen.Tags.cfg, withLog removeAll⟩ (true, []) {}) sampleChunks).1.stream.disp.ctl.2.map
+        fun t => (t.src.start, t.src.end))
+    = [(0, 9), (9, 10), (10, 10), (10, 18), (18, 24)] := by decide +kernel
+example : sinkBytes (run ⟨Gen.Syntax.table, Gen.Tags.cfg, withLog removeAll⟩
+      (Rewriter.new ⟨Gen.Syntax.table, Gen.Tags.cfg, withLog removeAll⟩ (true, []) {}) sampleChunks).1.sink
+    = [60,100,105,118,32,97,61,98,62, 60,47,100,105,118,62] := by decide +kernel
 
 /-! ### attribute locations -/
 
